@@ -321,6 +321,70 @@ Theorem C19_cp2k_keys_only_constructor_refuted : exists data, cp2k_settings_ok d
 Proof. exact cp2k_unrepaired_new_refuted. Qed.
 Print Assumptions C19_cp2k_keys_only_constructor_refuted.
 
+(* ------------------------------------------------------------------ CP2K section trees *)
+
+(* update_node on an existing target (dict data, nothing appended to the settings): in the
+   depth-first list of all sections only the target's data changes -- by the data-line edit
+   above --, every other section (same-named siblings included), the order and the nesting
+   stay as they were, and the path dictionary a second run would build is the same *)
+Theorem C19_cp2k_tree_update_exact : forall st u i ss,
+  upd_plain u -> lookup (u_target u) (t_refs st) = Some (i, ss) ->
+  exists st', cp2k_update1 st u = Some st' /\
+    flat_map flat (t_roots st') = map (upd_entry i (data_edit u)) (flat_map flat (t_roots st)) /\
+    map shape (t_roots st') = map shape (t_roots st) /\
+    t_refs st' = t_refs st /\ cp2k_refs (t_roots st') = cp2k_refs (t_roots st).
+Proof. exact cp2k_tree_update_exact. Qed.
+Print Assumptions C19_cp2k_tree_update_exact.
+
+Theorem C19_cp2k_tree_update_idempotent : forall st u i ss st',
+  upd_plain u -> cp2k_settings_ok (u_data u) ->
+  lookup (u_target u) (t_refs st) = Some (i, ss) -> cp2k_update1 st u = Some st' ->
+  cp2k_update1 st' u = Some st'.
+Proof. exact cp2k_tree_update_idempotent. Qed.
+Print Assumptions C19_cp2k_tree_update_idempotent.
+
+Theorem C19_cp2k_tree_replace_idempotent : forall st u i ss st', u_replace u = true ->
+  lookup (u_target u) (t_refs st) = Some (i, ss) -> cp2k_update1 st u = Some st' ->
+  cp2k_update1 st' u = Some st'.
+Proof. exact cp2k_tree_replace_idempotent. Qed.
+Print Assumptions C19_cp2k_tree_replace_idempotent.
+
+(* the text written for a forest of sections reads back as the same forest (titles,
+   settings, data lines, nesting, order): comparing outputs as trees is comparing outputs *)
+Theorem C19_cp2k_read_print : forall roots, Forall wf_node roots ->
+  exists nx roots', cp2k_read (cp2k_print roots) = Some (nx, roots') /\ map unid roots' = map unid roots.
+Proof. exact cp2k_read_print. Qed.
+Print Assumptions C19_cp2k_read_print.
+
+Example C19_ex_cp2k_wf :
+  wf_node (Node 7 [77; 68] [[79; 78]] [[83; 84; 69; 80; 83; 32; 53]] [Node 9 [69; 65; 67; 72] [] [[77; 68; 32; 49]] []]).
+Proof.
+  assert (T : forall t, no_space t -> t <> [] -> tok t) by (intros; split; assumption).
+  constructor; try reflexivity.
+  - apply T; [reflexivity|discriminate].
+  - repeat constructor; discriminate.
+  - repeat constructor; discriminate.
+  - constructor; [|constructor]. constructor; try reflexivity.
+    + apply T; [reflexivity|discriminate].
+    + constructor.
+    + repeat constructor; discriminate.
+    + constructor.
+Qed.
+
+(* "&A" / "&B x" / "K 1" / "&END B" / "&B y" / "K 2" / "&END B" / "&END A", target A->B->y, K := 9 *)
+Example C19_ex_cp2k_tree :
+  let ls := [[38; 65]; [38; 66; 32; 120]; [75; 32; 49]; [38; 69; 78; 68; 32; 66]; [38; 66; 32; 121]; [75; 32; 50];
+             [38; 69; 78; 68; 32; 66]; [38; 69; 78; 68; 32; 65]] in
+  let u := mkU [65; 45; 62; 66; 45; 62; 121] [] false true [([75], Some [57])] [] in
+  upd_plain u /\ cp2k_settings_ok (u_data u) /\
+  cp2k_apply ls [u] [] =
+  Some [[38; 65]; [32; 32; 38; 66; 32; 120]; [32; 32; 32; 32; 75; 32; 49]; [32; 32; 38; 69; 78; 68; 32; 66];
+        [32; 32; 38; 66; 32; 121]; [32; 32; 32; 32; 75; 32; 57]; [32; 32; 38; 69; 78; 68; 32; 66]; [38; 69; 78; 68; 32; 65]].
+Proof.
+  cbv zeta. split; [split; reflexivity|]. split; [|vm_compute; reflexivity].
+  split; [repeat constructor; intros []|]. repeat constructor; discriminate.
+Qed.
+
 (* ------------------------------------------------------------------ LAMMPS variables *)
 
 Theorem C19_lammps_subst_exact : forall s l i p, nth_error l i = Some p ->
